@@ -75,7 +75,7 @@ func genAttackCase(t *rapid.T, ao attackOpts) AttackCase {
 	signers := []string{"T1", "T2", "T3"}
 	np := rapid.IntRange(1, 3).Draw(t, "poolSize")
 	for i := 0; i < np; i++ {
-		g := h.GenGenuine(sp, signers, h.ModelOpts{Text: txt, AttrText: atxt, MaxAssert: 2}, true).Draw(t, "genuine")
+		g := h.GenGenuine(sp, signers, h.ModelOpts{Text: txt, AttrText: atxt, MaxAssert: 2, Embedded: true}, true).Draw(t, "genuine")
 		g.Layout, g.Pres = h.Layout{}, h.Presentation{}
 		// distinct IDs across the pool
 		g.Model.ID.V += fmt.Sprintf("p%d", i)
@@ -192,14 +192,12 @@ type provenance struct {
 func (c *AttackCase) provenance() provenance {
 	var p provenance
 	for _, g := range c.Pool {
-		if g.Placement == "assertions" || g.Placement == "both" {
-			for i := range g.Model.Assertions {
-				if i < len(g.AsrtSig) && c.specTrusted(g.AsrtSig[i]) {
-					p.own = append(p.own, g.Model.Assertions[i].View())
-				}
+		for i := range g.Model.Assertions {
+			if sp := g.OwnSig(i); sp != nil && c.specTrusted(sp) {
+				p.own = append(p.own, g.Model.Assertions[i].View())
 			}
 		}
-		if (g.Placement == "response" || g.Placement == "both") && c.specTrusted(g.RespSig) {
+		if g.SignsResponse() && c.specTrusted(g.RespSig) {
 			r := struct {
 				view  h.ResponseView
 				asrts []h.AssertionView
